@@ -15,7 +15,6 @@ type Violation struct {
 	Sig    string `json:"sig,omitempty"` // history signature for known-findings lookup
 }
 
-
 func eqStrings(a, b []string) bool {
 	if len(a) != len(b) {
 		return false
